@@ -4,6 +4,7 @@ import (
 	"fmt"
 	"sort"
 	"strings"
+	"time"
 
 	"github.com/spikeekips/mitum/base"
 	"github.com/spikeekips/mitum/isaac"
@@ -89,7 +90,15 @@ func runC05(c *Ctx) error {
 			if i < len(fixed) {
 				tok = fixed[i][st]
 			} else {
-				switch k := c.Intn(10); {
+				switch k := c.Intn(11); {
+				case k == 10 && last > 0:
+					// a late sign fact: of a stage point behind the last point (also one whose records are cleaned already)
+					rank := 1 + c.Intn(last)
+					kind := "n"
+					if rank < last && c.Chance(2, 5) {
+						kind = "s"
+					}
+					tok = fmt.Sprintf("w:%d:%s:%d", rank, kind, c.Intn(len(nodes)))
 				case k < 6:
 					rank := last + 1 + c.Intn(4)
 					if rank > 18 {
@@ -148,6 +157,16 @@ func runC05(c *Ctx) error {
 					tok = strings.Join(p[:4], ":") // the model does not distinguish
 				} else {
 					_, _ = box.VoteSignFact(sf)
+				}
+			case "w":
+				var rank, node int
+				fmt.Sscan(p[1], &rank)
+				fmt.Sscan(p[3], &node)
+				if lp, err := isaac.NewLastPoint(c05point(last), false, false); err == nil && isaac.IsNewBallot(lp, c05point(rank), p[2] == "s") {
+					tok = "c" // (not refused after all: not what this step is about)
+					box.VerifClean()
+				} else {
+					_, _ = box.VoteSignFact(signFact(rank, p[2] == "s", node))
 				}
 			case "l":
 				var q int
@@ -283,7 +302,7 @@ func runC05(c *Ctx) error {
 			c.Sample(map[string]interface{}{"script": toks, "snapshot": snapshot})
 		}
 	}
-	return nil
+	return c05counting(c, nodes)
 }
 
 var c05ranks = func() map[string]int {
@@ -313,4 +332,98 @@ func c05less(a, b string) bool {
 		return ra < rb
 	}
 	return ka < kb
+}
+
+// the box counting for real (suffrage known): after every voteproof it emits, plain or suffrage confirm, no record of a
+// stage point behind the voteproof's may stay among the live records
+func c05counting(c *Ctx, nodes []base.LocalNode) error {
+	n := 40
+	if c.Thorough() {
+		n = 800
+	}
+	for i := 0; i < n; i++ {
+		size := 3 + c.Intn(3)
+		bn := make([]base.Node, size)
+		for j := 0; j < size; j++ {
+			bn[j] = nodes[j]
+		}
+		suf, err := isaac.NewSuffrage(bn)
+		if err != nil {
+			return err
+		}
+		box := isaacstates.NewBallotbox(base.RandomAddress(""), func() base.Threshold { return base.Threshold(100) },
+			func(base.Height) (base.Suffrage, bool, error) { return suf, true, nil })
+		known := map[string]base.StagePoint{}
+		var toks []string
+		h := 33
+		stages := 2 + c.Intn(4)
+		for st := 0; st < stages; st++ {
+			acc := c.Bool()
+			kind := []string{"majority", "majority", "confirm", "partial"}[c.Intn(4)]
+			if kind == "confirm" {
+				acc = false
+			}
+			stage := base.StageINIT
+			if acc {
+				stage = base.StageACCEPT
+			}
+			point := base.NewPoint(base.Height(int64(h)), base.Round(0))
+			sp := base.NewStagePoint(point, stage)
+			known[sp.String()] = sp
+			toks = append(toks, fmt.Sprintf("%d.%s.%s", h, stage, kind))
+			voters := size
+			if kind == "partial" {
+				voters = 1 + c.Intn(size-1)
+			}
+			var fact base.BallotFact
+			switch {
+			case kind == "confirm":
+				fact = isaac.NewSuffrageConfirmBallotFact(point, valuehash.RandomSHA256(), valuehash.RandomSHA256(), []util.Hash{valuehash.RandomSHA256()})
+			case acc:
+				fact = isaac.NewACCEPTBallotFact(point, valuehash.RandomSHA256(), valuehash.RandomSHA256(), nil)
+			default:
+				fact = isaac.NewINITBallotFact(point, valuehash.RandomSHA256(), valuehash.RandomSHA256(), nil)
+			}
+			for j := 0; j < voters; j++ {
+				var sf base.BallotSignFact
+				if acc {
+					x := isaac.NewACCEPTBallotSignFact(fact.(isaac.ACCEPTBallotFact))
+					_ = x.NodeSign(nodes[j].Privatekey(), hNetworkID, nodes[j].Address())
+					sf = x
+				} else {
+					x := isaac.NewINITBallotSignFact(fact.(base.INITBallotFact))
+					_ = x.NodeSign(nodes[j].Privatekey(), hNetworkID, nodes[j].Address())
+					sf = x
+				}
+				_, _ = box.VoteSignFact(sf)
+			}
+			time.Sleep(300 * time.Microsecond) // the deferred count of the last vote
+			box.Count()
+			var emitted []base.Voteproof
+		drain:
+			for {
+				select {
+				case vp := <-box.Voteproof():
+					emitted = append(emitted, vp)
+				case <-time.After(500 * time.Microsecond):
+					break drain
+				}
+			}
+			c.Eval(1)
+			c.Count("counting-stage", fmt.Sprintf("%s/%d-voteproofs", kind, len(emitted)))
+			for _, vp := range emitted {
+				for _, r := range box.VerifRecords() {
+					rsp, ok := known[r.SP]
+					if ok && rsp.Compare(vp.Point()) < 0 {
+						c.Violation("C05:passed-records-stay-live", fmt.Sprintf("stages %s: after the voteproof of %v (%s) the record of %v is still among the live records (key %s, %d sign facts)",
+							strings.Join(toks, " "), vp.Point(), kind, rsp, r.Key, len(r.Voted)), map[string]interface{}{"stages": append([]string{}, toks...), "suffrage": size})
+					}
+				}
+			}
+			if !(acc || kind == "partial") || c.Bool() {
+				h++
+			}
+		}
+	}
+	return nil
 }
